@@ -3,7 +3,7 @@
  * Everything in this file is part of the TRUSTED BASE (DESIGN.md section 3.2 / 6):
  *   - Scalar arithmetic is exact rational/real arithmetic (__CPROVER_rational, SMT Real);
  *   - cos/sin/exp/... are uninterpreted functions (congruence only) constrained by
- *     the axioms below; each axiom is true of the real function on the stated domain;
+ *     the axioms below (sin^2+cos^2=1, cos 0=1, sin 0=0, a*inv(a)=1, sqrt(a)^2=a, exp>0); each is true of the real function on the stated domain;
  *   - x / y is x * inv(y) with y*inv(y)==1 (paths with y==0 are excluded: every
  *     denominator is an admissibility precondition).
  * The same names are implemented natively (long double + libm) in native.h.
@@ -37,8 +37,8 @@ static Sc LITf(long n, long d) { Sc a = n; Sc b = d; return a / b; }
 #define LIT(n, d) LITf(n, d)
 #define SCAST(x) (x)
 
-static Sc vcos(Sc a) { Sc c = __CPROVER_uninterpreted_cos(a), s = __CPROVER_uninterpreted_sin(a); __CPROVER_assume(c * c + s * s == 1); return c; }
-static Sc vsin(Sc a) { Sc c = __CPROVER_uninterpreted_cos(a), s = __CPROVER_uninterpreted_sin(a); __CPROVER_assume(c * c + s * s == 1); return s; }
+static Sc vcos(Sc a) { Sc c = __CPROVER_uninterpreted_cos(a), s = __CPROVER_uninterpreted_sin(a); __CPROVER_assume(c * c + s * s == 1); __CPROVER_assume(a != 0 || (c == 1 && s == 0)); return c; }
+static Sc vsin(Sc a) { Sc c = __CPROVER_uninterpreted_cos(a), s = __CPROVER_uninterpreted_sin(a); __CPROVER_assume(c * c + s * s == 1); __CPROVER_assume(a != 0 || (c == 1 && s == 0)); return s; }
 static Sc vinv(Sc a) { Sc i = __CPROVER_uninterpreted_inv(a); __CPROVER_assume(a * i == 1); return i; }
 static Sc vsqrt(Sc a) { Sc r = __CPROVER_uninterpreted_sqrt(a); __CPROVER_assume(r * r == a && r >= 0); return r; }
 static Sc vexp(Sc a) { Sc e = __CPROVER_uninterpreted_exp(a); __CPROVER_assume(e > 0); return e; }
